@@ -196,7 +196,8 @@ KindTexts(k) ==
   ELSE UNION {BasicTextMac(o) : o \in Macs \cup RichMacs}
          \cup UNION {RichTextMac(o) \cup BadTextMac(o) : o \in RichMacs}
 TextForms(k) == IF k = "v6" THEN {"str"} ELSE {"str", "bytes"}
-Narrow(k, v) == k = "v4" /\ v \in Wide4 \ (Sweep4 \cup Base4)     \* reduced set of forms and operations
+NarrowSet == Wide4 \ (Sweep4 \cup Base4)
+Narrow(k, v) == k = "v4" /\ v \in NarrowSet     \* reduced set of forms and operations
 
 \* Cls(text): accepted iff the text denotes an address; then the object holds it
 MakeText(k, form, c) ==
@@ -386,7 +387,10 @@ MaskHoles(k) == IF k = "v4" THEN {<<255, 0, 255, 0>>, <<0, 0, 0, 1>>, <<127, 255
                 ELSE {<<65535, 0, 65535, 0, 0, 0, 0, 0>>, <<0, 0, 0, 0, 0, 0, 0, 1>>,
                       <<32767, 65535, 65535, 65535, 65535, 65535, 65535, 65535>>,
                       <<65535, 65535, 65535, 65535, 65535, 65535, 65535, 65533>>}
-BinVals(k) == IF k = "v4" THEN Wide4 \cup Sweep4 \cup Base4 ELSE IF k = "v6" THEN Sweep6 \cup Base6 \cup Rich6 ELSE Macs \cup RichMacs
+BinVals4 == Wide4 \cup Sweep4 \cup Base4
+BinVals6 == Sweep6 \cup Base6 \cup Rich6
+BinValsMac == Macs \cup RichMacs
+BinVals(k) == IF k = "v4" THEN BinVals4 ELSE IF k = "v6" THEN BinVals6 ELSE BinValsMac
 SizedVals(k) == IF k = "v4" THEN {<<0, 0, 0, 0>>, <<255, 255, 255, 255>>}
                 ELSE IF k = "v6" THEN Base6 ELSE Macs \cup RichMacs
 
@@ -421,30 +425,38 @@ Force(q) == SubSeq(q, 1, Len(q))     \* evaluate a lazily defined sequence once
 InNetAll == \E n0 \in NetPartners : LET nets == Force(AllNets(obj.k, n0)) IN \E s \in NetStyles : InNet(s, nets)
 InNetInferAll == \E n \in InferPartners : InNetInfer(n)
 
-\* The canonical-text constructor comes first so that the breadth-first search
-\* reaches every value through it: the exported behaviour of an operation is
-\* then "construct from canonical text; operate".
-Next ==
+NextMake ==
   \/ \E k \in KindsOn : \E c \in CanonOf(k) : MakeText(k, "str", c)
-  \/ \E k \in KindsOn : \E f \in TextForms(k), c \in TextsOf(k) : IF f = "str" /\ c \in CanonOf(k) THEN FALSE ELSE MakeText(k, f, c)
+  \/ \E k \in KindsOn : \E f \in TextForms(k), c \in TextsOf(k) :
+        IF f = "str" /\ c \in CanonOf(k) THEN FALSE ELSE MakeText(k, f, c)
   \/ \E k \in KindsOn : \E v \in BinVals(k) : \E f \in BinForms(k, v) : MakeBin(k, f, v, 0)
   \/ \E k \in KindsOn : \E v \in SizedVals(k) :
         \E f \in {g \in BinForms(k, v) : Sized(g)}, adj \in {-1, 1} : MakeBin(k, f, v, adj)
+NextOp ==
   \/ Reparse
   \/ Props
-  \/ \E attr \in {"_value", "raw", "brand_new"} : Mutate(attr)
+  \/ \E attr \in {"_value", "raw"} : Mutate(attr)
   \/ MutateSource
   \/ InNetAll
   \/ InNetInferAll
   \/ obj.v \in Base4 /\ \E s \in {"int", "str", "mask", "mask_obj"} : GetNetwork(s)
   \/ obj.v \in Base6 \cup Rich6 /\ \E zd \in BOOLEAN, sd \in BOOLEAN, v4 \in {"auto", "yes", "no"} : ToStr6(zd, sd, v4)
   \/ obj.v \in Base6 /\ \E m \in Macs : SetMac6(m)
+NextPure ==
   \/ \E k \in NetKindsOn : \E b \in (-1)..(W(k) * NU(k) + 1) : CidrToMask(k, b)
   \/ \E k \in NetKindsOn : \E f \in {"str", "obj"}, m \in MaskDomain(k) : MaskToCidrA(k, f, m)
   \/ \E k \in NetKindsOn : \E c \in CidrOf(k), inf \in InferFlags(k), ah \in BOOLEAN : ParseCidr(k, c, inf, ah)
   \/ \E d \in DpidsOn, f \in {"int", "raw"}, l \in BOOLEAN : DpidToStr(f, d, l)
   \/ \E c \in DpidTexts : StrToDpid(c)
   \/ \E d \in DpidsOn \cup DpidsRTOn, l \in BOOLEAN : DpidRound(d, l)
+
+\* The canonical-text constructor comes first so that the breadth-first search
+\* reaches every value through it: the exported behaviour of an operation is
+\* then "construct from canonical text; operate".  The guards only spare TLC
+\* the enumeration of alphabets whose actions are disabled anyway.
+Next == \/ MayMake /\ NextMake
+        \/ (obj.k # "none" /\ MayOp) /\ NextOp
+        \/ MayMake /\ NextPure
 
 Spec == Init /\ [][Next]_vars
 
